@@ -80,7 +80,7 @@ RULES = {
     # R11: `usize::from(x)` for x: u16 -> `(x as usize)` is identical (lossless widening); Verus has no From spec.
     "R11": [(re.compile(r"\busize::from\("), "vf_usize_from(")],
     # R23: `x.into()` / `self.try_into()` -> generic wrapper fns (std's blanket Into / TryInto have no Verus specification)
-    "R23": [(re.compile(r"\b(\w+)\s*\.\s*into\(\)"), r"vf_into(\1)"), (re.compile(r"\b(\w+)\s*\.\s*try_into\(\)"), r"vf_try_into(\1)")],
+    "R23": [(re.compile(r"\b((?:\w+\s*\.\s*)*\w+)\s*\.\s*into\(\)"), r"vf_into(\1)"), (re.compile(r"\b(\w+)\s*\.\s*try_into\(\)"), r"vf_try_into(\1)")],
     # R21: `v.try_into()` on a `&FieldValue` -> generic wrapper fn (std's blanket TryInto has no Verus specification)
     "R21": [(re.compile(r"\b(\w+)\s*\.\s*try_into\(\)"), r"vf_try_into(\1)")],
 }
@@ -179,6 +179,43 @@ def split_args(text):
     return out
 
 
+def returns_to_acc(inner, wrapper):
+    """closure-level `return Ok(E)` (wrapper="Ok": try_fold) / `return (E)` (fold) followed by `;` or `,` (match arm)
+    -> `{ __acc = E; continue; }`; `return Err(..)` of a try_fold closure keeps its meaning (it leaves try_fold and,
+    through the trailing `?`, the function).  Any other `return` is not understood."""
+    out = inner
+    pos = 0
+    while True:
+        m = mask(out)
+        mm = re.compile(r"\breturn\b\s*").search(m, pos)
+        if not mm:
+            return out
+        k = mm.end()
+        if wrapper:
+            if m.startswith("Err(", k):
+                pos = k
+                continue
+            if not m.startswith(wrapper + "(", k):
+                raise AnchorLost("R16: closure-level return not in the expected shape")
+            op = k + len(wrapper)
+            cl = match_close(m, op)
+            expr = out[op + 1:cl].strip()
+        else:
+            if m[k] != "(":
+                raise AnchorLost("R16: closure-level return not in the expected shape")
+            op = k
+            cl = match_close(m, op)
+            expr = out[op:cl + 1]
+        t = cl + 1
+        while t < len(m) and m[t].isspace():
+            t += 1
+        if t >= len(m) or m[t] not in ";,":
+            raise AnchorLost("R16: closure-level return not followed by ';' or ','")
+        rep = "{ __acc = %s; continue; }" % expr + ("," if m[t] == "," else "")
+        out = out[:mm.start()] + rep + out[t + 1:]
+        pos = mm.start() + len(rep)
+
+
 def tail_to_acc(inner, wrapper):
     """the closure's final expression `Ok(E)` (wrapper="Ok") or `(..)` (wrapper=None) -> `__acc = E;`"""
     t = inner.rstrip()
@@ -261,12 +298,10 @@ def rule_r16(body, hits, acctype=None):
         if mask(cbody).startswith("{"):
             inner = cbody[1:match_close(mask(cbody), 0)].rstrip()
             if is_try:
-                inner, _ = re.subn(r"return\s+Ok\((.*?)\)\s*;", r"{ __acc = \1; continue; }", inner, flags=re.S)
+                inner = returns_to_acc(inner, "Ok")
                 inner, n2 = tail_to_acc(inner, "Ok")
             else:
-                inner, _ = re.subn(r"return\s+(\([^()]*\))\s*([;,])", r"{ __acc = \1; continue; }\2", inner, flags=re.S)
-                if re.search(r"\breturn\b", mask(inner)):
-                    raise AnchorLost("R16: closure-level return not in the expected shape")
+                inner = returns_to_acc(inner, None)
                 inner, n2 = tail_to_acc(inner, None)
             if n2 != 1:
                 raise AnchorLost("R16: closure does not end in a tuple result")
@@ -449,6 +484,29 @@ def rule_r25(body, hits):
            % ("" if recv.endswith(")") else "&", recv, cm.group(1).strip(), cm.group(2).strip().rstrip(",").strip()))
     hits["R25"] = hits.get("R25", 0) + 1
     return body[:start] + rep + body[cl + 1:]
+
+
+def rule_r26(body, hits):
+    """R26: `RECV.iter().map(|X| E).collect()` (collecting into a Vec) is replaced by the definition of map + collect:
+         { let __mp = &RECV; let mut __out = Vec::new(); let mut __m: usize = 0;
+           while __m < __mp.len() { let X = &__mp[__m]; __m += 1; __out.push(E); } __out }"""
+    m = mask(body)
+    mm = re.search(r"\.\s*iter\(\)\s*\.\s*map\(\s*\|", m)
+    if not mm:
+        raise AnchorLost("R26: no iter().map(..) found")
+    start = recv_start(m, mm.start())
+    recv = "".join(body[start:mm.start()].split())
+    op = m.index("(", m.index("map", mm.start()))
+    cl = match_close(m, op)
+    cm = re.match(r"\s*\|([^|]*)\|\s*(.*)$", body[op + 1:cl], re.S)
+    tail = re.match(r"\s*\.\s*collect\(\)", m[cl + 1:])
+    if not cm or not tail:
+        raise AnchorLost("R26: map(|x| E).collect() expected")
+    rep = ("{ let __mp = &%s; let mut __out = Vec::new(); let mut __m: usize = 0; while __m < __mp.len() "
+           "{ let %s = &__mp[__m]; __m += 1; __out.push(%s); } __out }"
+           % (recv, cm.group(1).strip(), cm.group(2).strip().rstrip(",").strip()))
+    hits["R26"] = hits.get("R26", 0) + 1
+    return body[:start] + rep + body[cl + 1 + tail.end():]
 
 
 def apply_rules(body, rules, hits):
@@ -720,7 +778,7 @@ class Extractor:
             hits["R17"] = hits.get("R17", 0) + 1
         for key, val in opts:
             if key == "prerules":
-                body = apply_rules(body, [r for r in val.split() if r not in ("R14", "R15", "R16", "R18", "R22", "R24", "R25")], hits)
+                body = apply_rules(body, [r for r in val.split() if r not in ("R14", "R15", "R16", "R18", "R22", "R24", "R25", "R26")], hits)
                 if "R16" in val.split():
                     at = [v for k, v in opts if k == "acctype"]
                     body = rule_r16(body, hits, at[0].strip() if at else None)
@@ -732,6 +790,8 @@ class Extractor:
                     body = rule_r24(body, hits)
                 if "R25" in val.split():
                     body = rule_r25(body, hits)
+                if "R26" in val.split():
+                    body = rule_r26(body, hits)
                 if "R14" in val.split():
                     body = rule_r14(body, hits)
                 if "R15" in val.split():
@@ -747,11 +807,13 @@ class Extractor:
                 contract.append((key, val.strip().rstrip(",")))
             elif key in ("rules", "prerules", "mapresbody", "acctype", "mutparam") or key.startswith("r17call "):
                 pass
-            elif key.startswith("closure "):
+            elif key.startswith(("closure ", "closureopt ")):
                 if cl is None:
                     cl = closures(body)
                 n = int(key.split()[1])
                 if n >= len(cl):
+                    if key.startswith("closureopt "):
+                        continue        # the closure this contract is for is optional (e.g. an identity map)
                     raise AnchorLost("fn %s: closure #%d not found (%d closures)" % (fname, n, len(cl)))
                 st, pe, bs, be = cl[n]
                 pname, _, ctr = val.partition("|")
@@ -995,7 +1057,7 @@ class Extractor:
                     d2 = s2[3:]
                     if d2.strip() == "end":
                         break
-                    mk = re.match(r"\s{0,3}((?:closure|forloop|opaquefor|beforefor|forstart|forend|loopstart|loopend|beforeloop|afterloop|loop|r17call)\s+\d+|before\s+\"[^\"]*\"|after\s+\"[^\"]*\"|opaque\s+\"[^\"]*\"|\w+):(.*)$", d2)
+                    mk = re.match(r"\s{0,3}((?:closureopt|closure|forloop|opaquefor|beforefor|forstart|forend|loopstart|loopend|beforeloop|afterloop|loop|r17call)\s+\d+|before\s+\"[^\"]*\"|after\s+\"[^\"]*\"|opaque\s+\"[^\"]*\"|\w+):(.*)$", d2)
                     if mk and not d2.startswith("     "):
                         opts.append([mk.group(1), mk.group(2)])
                     else:
